@@ -215,7 +215,7 @@ def enum_specs(draw, prof=None):
     lens, gaps = _fit_layout(lo, hi, n, cuts, gaps)
     n = sum(lens)
     total = hi - lo + 1
-    layout = draw(st.sampled_from(prof.get("layouts", ["free"] * 8 + ["span_pow2", "span_all", "lattice", "pow2", "arith", "mirrored"])))
+    layout = draw(st.sampled_from(prof.get("layouts", ["free"] * 8 + ["span_pow2", "span_all", "lattice", "pow2", "arith", "arith", "mirrored", "even_runs"])))
     if layout == "span_pow2" and len(lens) >= 2:
         # MAX - MIN exactly on / next to a power of two (bit-set and bitmap style fast paths)
         target = draw(st.sampled_from([7, 8, 9, 15, 16, 17, 31, 32, 33, 63, 64, 65, 127, 128, 129, 255, 256, 257, 65535, 65536]))
@@ -272,7 +272,31 @@ def enum_specs(draw, prof=None):
             base = draw(st.sampled_from([lo, hi - step * (n - 1), max(lo, -(step * (n - 1)) // 2), 0 if lo <= 0 and step * (n - 1) <= hi else lo]))
             cand = [base + step * i for i in range(n)]
             if cand[0] >= lo and cand[-1] <= hi:
+                if n >= 4 and step >= 3 and draw(st.booleans()):
+                    # almost equally spaced: one interior value off the grid, end points unchanged
+                    j = draw(st.integers(1, n - 2))
+                    cand[j] += draw(st.sampled_from([1, -1, step // 2, -(step // 2)]))
                 values = cand
+    if layout == "even_runs" and 8 <= n <= 60:
+        # runs of equal length, or first == last == average with the middle runs uneven (2,1,3,2)
+        L = draw(st.integers(2, 4))
+        kk = max(4, min(n // L, 8))
+        ls = [L] * kk
+        if draw(st.booleans()) and kk >= 4:
+            a = draw(st.integers(1, kk - 2))
+            b = draw(st.integers(1, kk - 2))
+            if a != b and ls[a] > 1:
+                ls[a] -= 1
+                ls[b] += 1
+        g = draw(st.sampled_from([1, 1, 2, 5]))
+        cand, cur = [], (0 if lo <= 0 else lo)
+        cur = draw(st.sampled_from([cur, lo, max(lo, -20)]))
+        for ln in ls:
+            cand.extend(range(cur, cur + ln))
+            cur += ln + g
+        if cand and cand[0] >= lo and cand[-1] <= hi:
+            values = cand
+            n = len(values)
     if layout == "mirrored" and 4 <= n <= 40 and lo < 0:
         # values mirrored around zero without zero itself (-m..-1, 1..m), a few interior values removed
         m_ = (n + 3) // 2
